@@ -137,6 +137,16 @@ def has_linebreak(s):
     return "\n" in s or "\r" in s
 
 
+def name_forms(name):
+    """How a field name may be written: raw, or escaped like a JSON / Python string body (the statement does not say; an
+    implementation that escapes control characters in names is as good)."""
+    forms = [name]
+    for f in (json.dumps(name)[1:-1], json.dumps(name, ensure_ascii=False)[1:-1], repr(name)[1:-1]):
+        if f not in forms:
+            forms.append(f)
+    return forms
+
+
 def check_compact(msg, text):
     """-> (failed clauses, observed field order or None, F6 mechanism matched)"""
     errs, rem = parse_header(msg, text)
@@ -165,15 +175,16 @@ def check_compact(msg, text):
         j = i + 1
         while True:
             for name in left:
-                if rem.startswith(name + "=", j):
-                    try:
-                        val, end = dec.raw_decode(rem, j + len(name) + 1)
-                    except ValueError:
-                        continue
-                    if typed_eq(val, fields[name]):
-                        r = parse(end, left - {name})
-                        if r is not None:
-                            return [name] + r
+                for shown in name_forms(name):
+                    if rem.startswith(shown + "=", j):
+                        try:
+                            val, end = dec.raw_decode(rem, j + len(shown) + 1)
+                        except ValueError:
+                            continue
+                        if typed_eq(val, fields[name]):
+                            r = parse(end, left - {name})
+                            if r is not None:
+                                return [name] + r
             if j < len(rem) and rem[j] == " ":
                 j += 1
             else:
@@ -184,7 +195,7 @@ def check_compact(msg, text):
         missing = []
         for k, v in fields.items():
             ok = False
-            for mm in re.finditer(re.escape(k + "="), rem):
+            for mm in re.finditer("(?:" + "|".join(re.escape(x) for x in name_forms(k)) + ")=", rem):
                 try:
                     val, _ = dec.raw_decode(rem, mm.end())
                     ok = ok or typed_eq(val, v)
@@ -275,7 +286,7 @@ def check_pretty(msg, text):
     fields = {k: v for k, v in msg.items() if k not in HEADER}
     pos = {}
     for k in fields:
-        found = [(m.start(), m.end()) for m in re.finditer(r"\n[ \t]*" + re.escape(k) + r":(?=[ \t\n]|$)", body)]
+        found = [(m.start(), m.end()) for m in re.finditer(r"\n[ \t]*(?:" + "|".join(re.escape(x) for x in name_forms(k)) + r"):(?=[ \t\n]|$)", body)]
         # a label is a line start; a name that itself begins with blanks also matches with fewer blanks in front: keep
         # distinct line starts only
         starts = sorted(set(s for s, e in found))
@@ -753,8 +764,8 @@ def run(prop, tier):
 
         # ---- (a) layout -------------------------------------------------------------------------------------------------
         size = 1500 if quick else 4000
-        chunks = [(lay[i:i + size], rng.randrange(10 ** 9), (2, 2) if quick else (4, 2)) for i in range(0, len(lay), size)]
-        emitted = [(rng.randrange(10 ** 9), 40 if quick else 250) for _ in range(8 if quick else 32)]
+        chunks = [(lay[i:i + size], rng.randrange(10 ** 9), (2, 2) if quick else (6, 3)) for i in range(0, len(lay), size)]
+        emitted = [(rng.randrange(10 ** 9), 40 if quick else 250) for _ in range(8 if quick else 48)]
         pool = []
         f6_count = 0
         with ProcessPoolExecutor(WORKERS) as ex:
@@ -796,10 +807,10 @@ def run(prop, tier):
         pool.sort(key=json.dumps)
 
         # ---- (b) eliot-prettyprint: every stream TLC enumerated, on the real entry point -----------------------------------
-        nvar = 1 if quick else 2
+        nvar = 1 if quick else 3
         nodes = {}
         for _, fmt, stream, kinds in pps:
-            for w in range(nvar if len(stream) < 4 else 1):
+            for w in range(nvar if len(stream) < 4 else 2):
                 lines = []
                 for k in range(len(stream)):
                     lrng = random.Random("%d|%d|%s" % (SEED, w, "/".join(stream[:k + 1])))
@@ -898,7 +909,7 @@ def run(prop, tier):
         rep.sample({"filter_expr": EXPR[fcases[-1]["expr"]], "lines": fcases[-1]["lines"], "expected_written": fcases[-1]["out"], "stdout": fres[-1]["run"]})
         _t('filter')
         rep.cov["exhaustive"] = False
-        rep.cov["records"] = {"layout": len(lay), "pp": len(pps), "filter": len(fls), "cli_runs_pp": len(nodes), "cli_runs_filter": len(cli),
+        rep.cov["records"] = {"layout": len(lay), "pp": len(pps), "filter": len(fls), "inprocess_runs_pp": len(nodes), "cli_runs_pp": len(cli_keys), "cli_runs_filter": len(cli),
                               "messages_from_real_eliot_calls": sum(o["n"] for o in em_res)}
     except MachineryFailure as e:
         print("MACHINERY-FAILURE %s: %s" % (prop, e))
